@@ -65,19 +65,24 @@ def verify(d):
     return ok
 
 
+def _detect_one(args):
+    p, root = args
+    env = dict(os.environ, PRSA_REPO=root, PYTHONDONTWRITEBYTECODE="1")
+    r = subprocess.run([PY, "-S", "-c", "import sys; sys.path.insert(0, %r); from prsa.__main__ import run_property; from prsa import AnalysisBroken\n"
+                        "try:\n    st, rep = run_property(%r, 'quick', 0, root=%r, write_evidence=False, quiet=True, selftest=False)\n"
+                        "    print('STATUS', st, ';'.join(sorted({o.rule + ':' + o.key[:50] for o in rep.failed()})))\n"
+                        "except AnalysisBroken as e:\n    print('STATUS 2', str(e)[:250])\n" % (VERIF, p, root)], capture_output=True, text=True, env=env, cwd=VERIF)
+    line = [l for l in r.stdout.splitlines() if l.startswith("STATUS")]
+    return p, (line[-1][7:] if line else ("crash " + r.stderr[-300:]))
+
+
 def detect(d, props=PROPS):
+    from concurrent.futures import ThreadPoolExecutor
     patch = os.path.join(d, "patch.diff")
     t, root = scratch(patch)
-    res = {}
     try:
-        env = dict(os.environ, PRSA_REPO=root, PYTHONDONTWRITEBYTECODE="1")
-        for p in props:
-            r = subprocess.run([PY, "-S", "-c", "import sys; sys.path.insert(0, %r); from prsa.__main__ import run_property; from prsa import AnalysisBroken\n"
-                                "try:\n    st, rep = run_property(%r, 'quick', 0, root=%r, write_evidence=False, quiet=True, selftest=False)\n"
-                                "    print('STATUS', st, ';'.join(sorted({o.rule for o in rep.failed()})))\n"
-                                "except AnalysisBroken as e:\n    print('STATUS 2', str(e)[:150])\n" % (VERIF, p, root)], capture_output=True, text=True, env=env, cwd=VERIF)
-            line = [l for l in r.stdout.splitlines() if l.startswith("STATUS")]
-            res[p] = line[-1][7:] if line else ("crash " + r.stderr[-200:])
+        with ThreadPoolExecutor(max_workers=16) as ex:
+            res = dict(ex.map(_detect_one, [(p, root) for p in props]))
     finally:
         cleanup(t)
     return res
